@@ -66,11 +66,11 @@ func readJSON(path string, v interface{}) {
 
 // Population flags shared by several subcommands.
 type popFlags struct {
-	seed                                                         int64
-	smallMax, smallSlice, smallSlices                            int
+	seed                                                                             int64
+	smallMax, smallSlice, smallSlices                                                int
 	nrand, ndp, nctx, nexpr, nplanted, nfeat, nlong, nbig, nring, nopt, nprobe, ntok int
-	corpus                                                       string
-	featctrl                                                     bool
+	corpus                                                                           string
+	featctrl                                                                         bool
 }
 
 func (p *popFlags) register(fs *flag.FlagSet) {
@@ -114,7 +114,11 @@ func (p *popFlags) cases() []*Case {
 		res = append(res, GenDPStress(r, fmt.Sprintf("dp-%d-%d", p.seed, i)))
 	}
 	for i := 0; i < p.nctx; i++ {
-		res = append(res, GenLALRFamily(r, fmt.Sprintf("ctx-%d-%d", p.seed, i)))
+		if i%2 == 0 {
+			res = append(res, GenLALRFamily(r, fmt.Sprintf("ctx-%d-%d", p.seed, i)))
+		} else {
+			res = append(res, GenCtx2(r, fmt.Sprintf("ctx2-%d-%d", p.seed, i)))
+		}
 	}
 	for i := 0; i < p.nexpr; i++ {
 		res = append(res, GenExpr(r, fmt.Sprintf("expr-%d-%d", p.seed, i)))
